@@ -55,6 +55,8 @@ type c42In struct {
 	Set  *gen.ImportSet `json:"set,omitempty"`
 	Text string         `json:"text,omitempty"`
 	Src  string         `json:"src,omitempty"`
+	// Style seeds the renderer's one-line choices for structured programs (0 = multi-line only).
+	Style int64 `json:"style,omitempty"`
 }
 
 func genC42(seed int64, tier string, emit func(run.Case)) {
@@ -74,7 +76,11 @@ func genC42(seed int64, tier string, emit func(run.Case)) {
 		id := fmt.Sprintf("c%07d", i)
 		switch i % 6 {
 		case 0, 1, 2:
-			emit(run.MkCase(id, "lsp", c42In{Prog: gen.LspProgram(q, tier == "thorough" && q.P(0.3)), Src: "structured"}))
+			in := c42In{Prog: gen.LspProgram(q, tier == "thorough" && q.P(0.3)), Src: "structured"}
+			if i%6 != 0 {
+				in.Style = 1 + q.Int63n(1<<40)
+			}
+			emit(run.MkCase(id, "lsp", in))
 		case 3:
 			emit(run.MkCase(id, "fileset", c42In{Set: gen.ImportProgram(q, false), Src: "fileset"}))
 		default:
@@ -126,6 +132,9 @@ type c42Renderer struct {
 	spans []c42Span
 	// spans of the board keyword maps (`layers: {…}`); path = the board that holds the block
 	kw []c42Span
+	// one-line rendering choices (nil = all multi-line) and what was produced
+	rnd                                *gen.R
+	oneLineKw, oneLineBoards, trailing int
 }
 
 func c42Unquote(seg string) string {
@@ -171,10 +180,94 @@ func (x *c42Renderer) value(s *gen.LStmt) {
 	}
 }
 
-func (x *c42Renderer) block(stmts []*gen.LStmt, depth int, board, boardAlt, scope []string) {
-	ind := strings.Repeat("  ", depth)
+// inline decides whether the next block is written on one line (`k: { a; b }`). Style 0
+// renders everything multi-line.
+func (x *c42Renderer) inline(body []*gen.LStmt) bool {
+	if x.rnd == nil || !x.rnd.P(0.35) {
+		return false
+	}
+	return true
+}
+
+// open / close write the braces of a block and return the byte offset of `{`.
+func (x *c42Renderer) open(one bool, empty bool) int {
+	at := x.sb.Len()
+	switch {
+	case one && empty:
+		x.sb.WriteString("{")
+	case one:
+		x.sb.WriteString("{ ")
+	default:
+		x.sb.WriteString("{\n")
+	}
+	return at
+}
+
+func (x *c42Renderer) close(one bool, empty bool, ind string) int {
+	switch {
+	case one && empty:
+		x.sb.WriteString("}")
+	case one:
+		x.sb.WriteString(" }")
+	default:
+		x.sb.WriteString(ind + "}")
+	}
+	return x.sb.Len()
+}
+
+func c42NoRaw(stmts []*gen.LStmt) []*gen.LStmt {
+	var out []*gen.LStmt
 	for _, s := range stmts {
-		x.sb.WriteString(ind)
+		if s.Raw == "" {
+			out = append(out, s)
+		}
+	}
+	return out
+}
+
+// attrs writes a body of plain `key: value` statements.
+func (x *c42Renderer) attrs(body []*gen.LStmt, depth int, one bool) {
+	ind := strings.Repeat("  ", depth)
+	for i, b := range body {
+		if one {
+			if i > 0 {
+				x.sb.WriteString("; ")
+			}
+			x.sb.WriteString(strings.Join(b.Key, ".") + ": " + b.Val.Render())
+			continue
+		}
+		x.sb.WriteString(ind + strings.Join(b.Key, ".") + ": " + b.Val.Render() + "\n")
+	}
+}
+
+// block writes statements; one = everything on the current line, separated by `;` (comments
+// are dropped there, a comment would swallow the rest of the line).
+func (x *c42Renderer) block(stmts []*gen.LStmt, depth int, board, boardAlt, scope []string, one bool) {
+	ind := strings.Repeat("  ", depth)
+	if one {
+		stmts = c42NoRaw(stmts)
+	}
+	for si, s := range stmts {
+		if one {
+			if si > 0 {
+				x.sb.WriteString("; ")
+			}
+		} else {
+			x.sb.WriteString(ind)
+		}
+		// eol ends a statement written in multi-line mode; after a block closed on this line a
+		// trailing comment may follow
+		closedInline := false
+		eol := func() {
+			if one {
+				return
+			}
+			if closedInline && x.rnd != nil && x.rnd.P(0.4) {
+				x.sb.WriteString(" # todo after block")
+				x.trailing++
+			}
+			x.sb.WriteString("\n")
+		}
 		if s.Raw != "" {
 			x.sb.WriteString(s.Raw + "\n")
 			continue
@@ -183,44 +276,70 @@ func (x *c42Renderer) block(stmts []*gen.LStmt, depth int, board, boardAlt, scop
 		switch {
 		case kind != "" && len(scope) == 0:
 			// `layers: { name: {…} }`
+			boards := s.Body
+			kwOne := one || x.inline(boards)
+			if kwOne {
+				boards = c42NoRaw(boards)
+				x.oneLineKw++
+			}
 			x.sb.WriteString(s.Key[0] + ": ")
 			kwi := len(x.kw)
-			x.kw = append(x.kw, c42Span{path: append([]string(nil), boardAlt...), open: x.sb.Len()})
-			x.sb.WriteString("{\n")
-			for _, b := range s.Body {
-				x.sb.WriteString(ind + "  ")
+			x.kw = append(x.kw, c42Span{path: append([]string(nil), boardAlt...)})
+			x.kw[kwi].open = x.open(kwOne, len(boards) == 0)
+			for bi, b := range boards {
+				if kwOne {
+					if bi > 0 {
+						x.sb.WriteString("; ")
+					}
+				} else {
+					x.sb.WriteString(ind + "  ")
+				}
 				if b.Raw != "" {
 					x.sb.WriteString(b.Raw + "\n")
 					continue
 				}
+				bOne := kwOne || x.inline(b.Body)
+				body := b.Body
+				if bOne {
+					body = c42NoRaw(body)
+					x.oneLineBoards++
+				}
 				x.sb.WriteString(b.Key[0] + ": ")
-				open := x.sb.Len()
-				x.sb.WriteString("{\n")
 				nb := append(append([]string(nil), board...), b.Key[0])
 				na := append(append([]string(nil), boardAlt...), kind, b.Key[0])
 				idx := len(x.spans)
-				x.spans = append(x.spans, c42Span{path: na, open: open})
-				x.block(b.Body, depth+2, nb, na, nil)
-				x.sb.WriteString(ind + "  }")
-				x.spans[idx].close = x.sb.Len()
-				x.sb.WriteString("\n")
+				x.spans = append(x.spans, c42Span{path: na})
+				x.spans[idx].open = x.open(bOne, len(body) == 0)
+				x.block(body, depth+2, nb, na, nil, bOne)
+				x.spans[idx].close = x.close(bOne, len(body) == 0, ind+"  ")
+				if !kwOne {
+					if bOne && x.rnd != nil && x.rnd.P(0.4) {
+						x.sb.WriteString(" # todo after board")
+						x.trailing++
+					}
+					x.sb.WriteString("\n")
+				}
 			}
-			x.sb.WriteString(ind + "}")
-			x.kw[kwi].close = x.sb.Len()
-			x.sb.WriteString("\n")
+			x.kw[kwi].close = x.close(kwOne, len(boards) == 0, ind)
+			closedInline = kwOne
+			eol()
 		case s.Tag == "board-path-form" && len(scope) == 0:
 			k := strings.ToLower(s.Key[0])
+			bOne := one || x.inline(s.Body)
+			body := s.Body
+			if bOne {
+				body = c42NoRaw(body)
+			}
 			x.sb.WriteString(s.Key[0] + "." + s.Key[1] + ": ")
-			open := x.sb.Len()
-			x.sb.WriteString("{\n")
 			nb := append(append([]string(nil), board...), s.Key[1])
 			na := append(append([]string(nil), boardAlt...), k, s.Key[1])
 			idx := len(x.spans)
-			x.spans = append(x.spans, c42Span{path: na, open: open, pathForm: true})
-			x.block(s.Body, depth+1, nb, na, nil)
-			x.sb.WriteString(ind + "}")
-			x.spans[idx].close = x.sb.Len()
-			x.sb.WriteString("\n")
+			x.spans = append(x.spans, c42Span{path: na, pathForm: true})
+			x.spans[idx].open = x.open(bOne, len(body) == 0)
+			x.block(body, depth+1, nb, na, nil, bOne)
+			x.spans[idx].close = x.close(bOne, len(body) == 0, ind)
+			closedInline = bOne
+			eol()
 		case s.IsEdge():
 			if s.Idx != "" || len(s.EKey) > 0 {
 				x.sb.WriteString("(")
@@ -246,13 +365,14 @@ func (x *c42Renderer) block(stmts []*gen.LStmt, depth int, board, boardAlt, scop
 				if s.Val == nil {
 					x.sb.WriteString(":")
 				}
-				x.sb.WriteString(" {\n")
-				for _, b := range s.Body {
-					x.sb.WriteString(ind + "  " + strings.Join(b.Key, ".") + ": " + b.Val.Render() + "\n")
-				}
-				x.sb.WriteString(ind + "}")
+				x.sb.WriteString(" ")
+				bOne := one || x.inline(s.Body)
+				x.open(bOne, false)
+				x.attrs(s.Body, depth+1, bOne)
+				x.close(bOne, false, ind)
+				closedInline = bOne
 			}
-			x.sb.WriteString("\n")
+			eol()
 		default:
 			x.segs(s.Key, board, scope, true)
 			x.value(s)
@@ -260,7 +380,7 @@ func (x *c42Renderer) block(stmts []*gen.LStmt, depth int, board, boardAlt, scop
 				if s.Val == nil {
 					x.sb.WriteString(":")
 				}
-				x.sb.WriteString(" {\n")
+				x.sb.WriteString(" ")
 				ns := append([]string(nil), scope...)
 				attr := false
 				for _, k := range s.Key {
@@ -270,23 +390,33 @@ func (x *c42Renderer) block(stmts []*gen.LStmt, depth int, board, boardAlt, scop
 					}
 					ns = append(ns, c42Unquote(k))
 				}
-				if attr {
-					for _, b := range s.Body {
-						x.sb.WriteString(ind + "  " + strings.Join(b.Key, ".") + ": " + b.Val.Render() + "\n")
-					}
-				} else {
-					x.block(s.Body, depth+1, board, boardAlt, ns)
+				bOne := one || x.inline(s.Body)
+				body := s.Body
+				if bOne {
+					body = c42NoRaw(body)
 				}
-				x.sb.WriteString(ind + "}")
+				x.open(bOne, len(body) == 0)
+				if attr {
+					x.attrs(body, depth+1, bOne)
+				} else {
+					x.block(body, depth+1, board, boardAlt, ns, bOne)
+				}
+				x.close(bOne, len(body) == 0, ind)
+				closedInline = bOne
 			}
-			x.sb.WriteString("\n")
+			eol()
 		}
 	}
 }
 
-func c42Render(prog []*gen.LStmt) *c42Renderer {
+// c42Render renders prog; style 0 = every block multi-line (as d2fmt would), otherwise a seed
+// for one-line blocks, `;` separated siblings and trailing comments.
+func c42Render(prog []*gen.LStmt, style int64) *c42Renderer {
 	x := &c42Renderer{}
-	x.block(prog, 0, nil, nil, nil)
+	if style != 0 {
+		x.rnd = gen.New(style)
+	}
+	x.block(prog, 0, nil, nil, nil, false)
 	return x
 }
 
@@ -371,7 +501,7 @@ func execC42(c run.Case) (res run.Result) {
 		c42FileSet(in.Set, &res)
 		return
 	}
-	x := c42Render(in.Prog)
+	x := c42Render(in.Prog, in.Style)
 	text := x.sb.String()
 	res.Digest = text
 	res.Sample = map[string]any{"src": in.Src, "text": trunc(text, 400)}
@@ -415,6 +545,9 @@ func execC42(c run.Case) (res run.Result) {
 	})
 	res.Add("board_positions_judged", npos)
 	res.Add("board_blocks", len(x.spans))
+	res.Add("board_blocks_on_one_line", x.oneLineBoards)
+	res.Add("board_keyword_blocks_on_one_line", x.oneLineKw)
+	res.Add("trailing_comments_after_one_line_block", x.trailing)
 	// --- completion at every position
 	c42Totality(text, &res, false)
 	// --- reference ranges
